@@ -388,6 +388,22 @@ func TestP2Limits(t *testing.T) {
 		raw, _ := json.Marshal(c)
 		raws = append(raws, raw)
 	})
+	// every entry depth of an eexec section x every growth body, enumerated
+	// (the depth at which the section's own entry meets the limit must not
+	// depend on what was drawn)
+	k := 0
+	for depth := 0; depth <= 19; depth++ {
+		for _, body := range eexecBodies {
+			k++
+			if !ev.Mine(k) {
+				continue
+			}
+			c := limitCase{Text: strings.Repeat("1 dict begin ", depth) + eexecSection(body), Expect: []string{"dictstackoverflow"}}
+			cases = append(cases, c)
+			raw, _ := json.Marshal(c)
+			raws = append(raws, raw)
+		}
+	}
 	outs := isolate.Run(raws, 30*time.Second, 8192)
 	for i, c := range cases {
 		rec.Eval(1)
